@@ -166,7 +166,7 @@ func findingSrc(min string) string {
 
 func run(c *hx.Ctx) error {
 	res := c.Res
-	res.Rule = "generated function bodies of 3–12 declarations/assignments over the 15 basic types (base programs) and one single-point mutant of each (20 mutation kinds); plus small streams outside the model (complex/interface operands, delayed shifts, package-level declarations, imports); a case is non-trivial when it has at least one operator or conversion; distinct by source text"
+	res.Rule = "generated function bodies of 3–12 declarations/assignments over the 15 basic types (base programs, ≈70% accepted by go/types) and one single-point mutant of each (20 mutation kinds: other identifier, wrap/drop conversion, swap operator, boundary constant, typed literal, shift-count kind, nil, random subexpression, undefined name, delete/duplicate/swap statement, changed declared type, :=/=, var/const, assign to other name, forced comparison, dropped operator, unused variable); systematic programs (every ordered pair of basic types under an operator of each class with variable/constant/untyped operands; every integer type at min-1, min, max, max+1 in 9 contexts; 19 count kinds × 9 shifted operands); small streams outside the model judged by Build-vs-go/types only (complex/interface operands, non-constant shifts of untyped constants, package-level declarations, imports); a case is non-trivial when it has at least one operator or conversion; distinct by source text"
 
 	if c.Replay != "" {
 		return replay(c)
@@ -182,7 +182,7 @@ func run(c *hx.Ctx) error {
 		}
 	}
 
-	n := c.N(2500, 60000)
+	n := c.N(2500, 200000)
 	var cases []*tcase
 	add := func(p *Prog, kind string) {
 		cases = append(cases, &tcase{p: p, kind: kind, src: p.src()})
@@ -244,6 +244,9 @@ func run(c *hx.Ctx) error {
 			// go/types' own type information and not judged again. A panic or a non-BuildError
 			// is still a failure.
 			res.Hist("known-shape:" + k)
+			if (tc.orc.Quirk || tc.orc.RefBug) && tc.model != "" {
+				compareModel(c, tc) // the reference is wrong here: the model is still tied to Build
+			}
 			continue
 		}
 		if cl != "" {
@@ -374,8 +377,13 @@ func compareModel(c *hx.Ctx, tc *tcase) {
 		return
 	}
 	modelOK := strings.HasPrefix(m, "ok")
-	if tc.orc.Quirk {
-		// the model states the specification's rule; go/types departs from it here
+	if tc.orc.Quirk || tc.orc.RefBug {
+		// the model states the specification's rule (and exact arithmetic); go/types departs
+		// from it here: only the tie to Build is checked
+		if modelOK != (tc.real.Class == "ok") {
+			res.AddBreak(proto.Break{Kind: "correspondence", Name: "model-vs-Build", Case: tc.protoLine(), Human: tc.src,
+				Impl: tc.real.Class + " " + tc.real.Msg, Model: m})
+		}
 		return
 	}
 	// specification validation: the model is the Go rule; go/types is the reference implementation
